@@ -562,11 +562,20 @@ func (g *tgen) hashStruct(f *TFile) *TStruct {
 	if nonASCII {
 		alpha = []string{"é", "ü", "à"} // all 0xc3 0x??: bytes >= 0x80 on every position
 	}
+	// long names: some structs give (some of) their fields names far beyond any fixed-size hashing window,
+	// alike over their first 70..110 bytes
+	longPrefix := ""
+	if g.r.Chance(30) {
+		longPrefix = strings.Repeat(alpha[0], 70+g.r.Intn(40)/len(alpha[0]))
+	}
 	seen := map[string]bool{}
 	for i := 0; i < n; i++ {
 		var k string
 		for {
 			var sb strings.Builder
+			if longPrefix != "" && i%2 == 0 {
+				sb.WriteString(longPrefix)
+			}
 			for j := 0; j < 8; j++ {
 				sb.WriteString(alpha[g.r.Intn(3)])
 			}
